@@ -1,6 +1,7 @@
 package cache
 
 import (
+	"io"
 	"io/ioutil"
 	"os"
 	"path/filepath"
@@ -8,6 +9,7 @@ import (
 	"github.com/mattetti/filebuffer"
 	"github.com/pojntfx/stfs/pkg/config"
 	"github.com/spf13/afero"
+	"github.com/spf13/afero/mem"
 )
 
 type fileWithSize struct {
@@ -42,17 +44,39 @@ func (f filebufferWithSize) Truncate(size int64) error {
 	return nil
 }
 
+// memFileWithSize rejects seeking to a negative position like a real file does; `mem.File` accepts it and panics on the next read
+type memFileWithSize struct {
+	fileWithSize
+}
+
+func (f memFileWithSize) Seek(offset int64, whence int) (int64, error) {
+	prev, err := f.File.Seek(0, io.SeekCurrent)
+	if err != nil {
+		return 0, err
+	}
+
+	pos, err := f.File.Seek(offset, whence)
+	if err == nil && pos < 0 {
+		if _, err := f.File.Seek(prev, io.SeekStart); err != nil {
+			return 0, err
+		}
+
+		return 0, os.ErrInvalid
+	}
+
+	return pos, err
+}
+
 func NewCacheWrite(
 	root string,
 	cacheType string,
 ) (cache WriteCache, cleanup func() error, err error) {
 	switch cacheType {
 	case config.WriteCacheTypeMemory:
-		buff := &filebufferWithSize{filebuffer.New([]byte{})}
+		// `filebuffer.Buffer` discards everything behind the cursor on each write, so use afero's in-memory file, which behaves like a file
+		buff := memFileWithSize{fileWithSize{mem.NewFileHandle(mem.CreateFile("buffer"))}}
 
 		return buff, func() error {
-			buff = nil
-
 			return nil
 		}, nil
 	case config.WriteCacheTypeFile:
